@@ -14,6 +14,16 @@ CHECKS = {
              "hand-written (modelled, not verified Rust). No axioms.",
         technique="Coq proof (induction, finite sweeps by vm_compute) + differential correspondence model vs code",
         design="2/C07"),
+    "C15": dict(
+        text="Coq theorems: decode(encode vs) = vs for all well-formed values (full i64, binary strings, arbitrary nesting, "
+             "prefix keys), encode v is in the independent inductive canonical grammar (ascending keys, shortest integers "
+             "and length prefixes), and every canonical document decodes and re-encodes to itself byte for byte. Proved "
+             "by nested induction over values / mutual induction over the grammar, with the decimal print/parse inverse "
+             "lemmas proved from scratch. Tie: differential runs of BEncoder/BDecoder vs the model with an independent "
+             "canonical-form recogniser as oracle on the implementation's bytes.",
+        note="Not modelled: native stack depth. Trusted: Coq kernel, correspondence harness, hand-written model. No axioms.",
+        technique="Coq proof (nested/mutual induction) + differential correspondence",
+        design="2/C15"),
     "C16": dict(
         text="Coq theorems over an executable mirror of BDecoder (iterator-on-suffix, fuelled, Panic/OutOfFuel as explicit "
              "outcomes): totality for every byte string, completeness w.r.t. an independent inductive grammar, the strict "
